@@ -1,5 +1,6 @@
 import EpdVerif.Props.C07Clear
 import EpdVerif.Drivers.Epd2in7b
+import EpdVerif.Drivers.Epd1in54b
 /-!
 # C01 for a driver that sends the frame ONE BYTE PER TRANSFER through a re-encoding (session 4)
 
@@ -11,7 +12,9 @@ and closed by the next command is THE SAME as the data sent in one transfer (ind
 bytes on the grouping state).  First use: **`epd2in7b_update_frame_delivers`** — for every buffer of the
 frame's size and every awake epd2in7b-kind controller outside partial mode, after `update_frame` the
 B/W plane holds the bit-inverted buffer (the panel's documented encoding) and the other plane the
-uniform inverted background.
+uniform inverted background.  `blocksOf_cmd_chunks` is the same for ANY sequence of transfers (one chunk each);
+with it **`epd1in54b_update_frame_delivers`**: the 2-bpp plane receives the driver's two-byte expansion of
+every buffer byte, in order.  (7in5 closes its data by the end of the call, not by a command: not done.)
 -/
 namespace EpdVerif
 
@@ -75,6 +78,49 @@ theorem blocksOf_cmd_dataEach (pre : List Act) (c : UInt8) (bs : List UInt8) (c2
   have hcur : (GState.step (List.foldl GState.step {} (actsToEvs pre)) (Ev.w false 1 [c])).cur = some c := by
     simp only [GState.step, GState.cmds]
   rw [step_dataEach_then_cmd _ c hcur bs c2]
+theorem fold_chunks (chunks : List (List UInt8)) : ∀ g : GState,
+    (chunks.map (fun c => Ev.w true 1 c)).foldl GState.step g = { g with pieces := chunks.reverse ++ g.pieces } := by
+  induction chunks with
+  | nil => intro g; rfl
+  | cons x xs ih =>
+    intro g
+    simp only [List.map_cons, List.foldl_cons]
+    rw [ih]
+    simp only [GState.step, List.reverse_cons, List.append_assoc, List.cons_append, List.nil_append]
+
+theorem actsToEvs_chunks (chunks : List (List UInt8)) (rest : List Act) :
+    actsToEvs (chunks.map Act.data ++ rest) = (chunks.map fun c => Ev.w true 1 c) ++ actsToEvs rest := by
+  induction chunks with
+  | nil => rfl
+  | cons x xs ih => simp only [List.map_cons, List.cons_append, actsToEvs, ih]
+
+theorem step_chunks_then_cmd (g : GState) (c : UInt8) (hc : g.cur = some c) (chunks : List (List UInt8)) (c2 : UInt8) :
+    GState.step ((chunks.map (fun c => Ev.w true 1 c)).foldl GState.step g) (Ev.w false 1 [c2])
+      = GState.step (GState.step g (Ev.w true 1 chunks.flatten)) (Ev.w false 1 [c2]) := by
+  rw [fold_chunks]
+  simp only [GState.step, GState.cmds, GState.close, hc]
+  have e : ((chunks.reverse ++ g.pieces).reverse).flatten = ((chunks.flatten :: g.pieces).reverse).flatten := by
+    simp only [List.reverse_append, List.reverse_reverse, List.reverse_cons, List.flatten_append, List.flatten_cons,
+      List.flatten_nil, List.append_nil]
+  rw [e]
+
+/-- a command whose data is sent in ANY sequence of transfers (one chunk per transfer), closed by the next
+    command: block-equivalent to the concatenated data sent in one transfer -/
+theorem blocksOf_cmd_chunks (pre : List Act) (c : UInt8) (chunks : List (List UInt8)) (c2 : UInt8) (rest : List Act) :
+    blocksOf (pre ++ Act.cmd c :: (chunks.map Act.data ++ Act.cmd c2 :: rest))
+      = blocksOf (pre ++ Act.cmd c :: Act.data chunks.flatten :: Act.cmd c2 :: rest) := by
+  unfold blocksOf blocksOfEvs
+  have h1 : actsToEvs (pre ++ Act.cmd c :: (chunks.map Act.data ++ Act.cmd c2 :: rest))
+      = actsToEvs pre ++ (Ev.w false 1 [c] :: ((chunks.map fun c => Ev.w true 1 c) ++ (Ev.w false 1 [c2] :: actsToEvs rest))) := by
+    rw [actsToEvs_append]; simp only [actsToEvs, actsToEvs_chunks]
+  have h2 : actsToEvs (pre ++ Act.cmd c :: Act.data chunks.flatten :: Act.cmd c2 :: rest)
+      = actsToEvs pre ++ (Ev.w false 1 [c] :: Ev.w true 1 chunks.flatten :: Ev.w false 1 [c2] :: actsToEvs rest) := by
+    rw [actsToEvs_append]; simp only [actsToEvs]
+  rw [h1, h2]
+  simp only [List.foldl_append, List.foldl_cons]
+  have hcur : (GState.step (List.foldl GState.step {} (actsToEvs pre)) (Ev.w false 1 [c])).cur = some c := by
+    simp only [GState.step, GState.cmds]
+  rw [step_chunks_then_cmd _ c hcur chunks c2]
 end EpdVerif
 
 namespace EpdVerif.Props.C01
@@ -123,5 +169,66 @@ theorem epd2in7b_update_frame_delivers (f : Feat) (d : DState) (b : Bytes) (u : 
   rw [epd2in7b_upd_blocks]
   simp only [List.append_nil]
   exact uc_two_blocks_stop u _ _ hu hp h14 (by rw [List.length_map]; exact hl) (by rw [List.length_replicate]; exact h2.symm)
+
+/-- a resolution block, then two complete data blocks outside partial mode: both planes ARE the blocks -/
+theorem uc_res_two_blocks (u : Uc) (r b1 b2 : List UInt8) (hu : u.asleep = false) (hp : u.partialOn = false)
+    (hl1 : b1.length = u.p1.size) (hl2 : b2.length = u.p2.size) :
+    (u.run [Blk.c 0x61 r, .c 0x10 b1, .c 0x13 b2]).p1.toList = b1 ∧
+    (u.run [Blk.c 0x61 r, .c 0x10 b1, .c 0x13 b2]).p2.toList = b2 := by
+  have q := C07.feed_61 u r hu
+  generalize hv : u.feed (.c 0x61 r) = v at q
+  have e0 : u.run [Blk.c 0x61 r, .c 0x10 b1, .c 0x13 b2] = v.run [Blk.c 0x10 b1, .c 0x13 b2] := by
+    rw [← hv]; rfl
+  have hpv : v.partialOn = false := by rw [q.2.1]; exact hp
+  have d1 := dtm_full v 0 b1 hpv (by simp only [↓reduceIte]; rw [q.2.2.1]; exact hl1)
+  simp only [↓reduceIte] at d1
+  have d2 := dtm_full (v.dtm 0 b1) 1 b2 d1.2.2.2.1 (by simp only [Nat.one_ne_zero, ↓reduceIte]; rw [d1.2.1, q.2.2.2.1]; exact hl2)
+  simp only [Nat.one_ne_zero, ↓reduceIte] at d2
+  have a1 := d1.2.2.2.2.2.1
+  have e : v.run [Blk.c 0x10 b1, .c 0x13 b2] = (v.dtm 0 b1).dtm 1 b2 := by
+    simp (config := {decide := true}) only [Uc.run, List.foldl, Uc.feed, q.1, a1, ↓reduceIte, Bool.false_eq_true]
+  rw [e0, e, d2.2.1]
+  exact ⟨d1.1, d2.1⟩
+
+open Drivers.Epd1in54b in
+theorem epd1in54b_upd_blocks (f : Feat) (d : DState) (b : Bytes) :
+    blocksOf ((prog f d (.upd b)).getD []) =
+      [.c 0x61 [u8 Gen.Epd1in54b.WIDTH, shr8 Gen.Epd1in54b.HEIGHT 8, u8 Gen.Epd1in54b.HEIGHT],
+       .c 0x10 ((b.map expandBits).flatten ++ []),
+       .c 0x13 (List.replicate (Gen.Epd1in54b.WIDTH * (Gen.Epd1in54b.HEIGHT / 8)) (byteValue d.bg) ++ [])] := by
+  have e : (prog f d (.upd b)).getD [] =
+      ([W] ++ sendResolution) ++ Act.cmd 0x10 :: ((b.map expandBits).map Act.data ++ Act.cmd 0x13 ::
+        [.rep (byteValue d.bg) (Gen.Epd1in54b.WIDTH * (Gen.Epd1in54b.HEIGHT / 8))]) := by
+    show updateFrame d b = _
+    simp only [updateFrame, List.map_map, List.append_assoc, List.cons_append, List.nil_append]
+    rfl
+  rw [e, blocksOf_cmd_chunks]
+  rfl
+
+open Drivers.Epd1in54b in
+theorem expandBits_length (x : UInt8) : (expandBits x).length = 2 := rfl
+
+open Drivers.Epd1in54b in
+theorem flatten_expand_length (b : Bytes) : ((b.map expandBits).flatten).length = 2 * b.length := by
+  induction b with
+  | nil => rfl
+  | cons x xs ih =>
+    simp only [List.map_cons, List.flatten_cons, List.length_append, expandBits_length, ih, List.length_cons]
+    omega
+
+open Drivers.Epd1in54b in
+/-- **epd1in54b `update_frame`, EVERY buffer**: the 2-bpp B/W plane receives the driver's two-byte expansion
+    of every buffer byte, in order (what `expand2_spec` relates to the pixels), the chromatic plane the
+    uniform background -/
+theorem epd1in54b_update_frame_delivers (f : Feat) (d : DState) (b : Bytes) (u : Uc)
+    (hu : u.asleep = false) (hp : u.partialOn = false)
+    (hl : 2 * b.length = u.p1.size) (h2 : u.p2.size = Gen.Epd1in54b.WIDTH * (Gen.Epd1in54b.HEIGHT / 8)) :
+    (u.run (blocksOf ((prog f d (.upd b)).getD []))).p1.toList = (b.map expandBits).flatten ∧
+    (u.run (blocksOf ((prog f d (.upd b)).getD []))).p2.toList
+      = List.replicate (Gen.Epd1in54b.WIDTH * (Gen.Epd1in54b.HEIGHT / 8)) (byteValue d.bg) := by
+  rw [epd1in54b_upd_blocks]
+  simp only [List.append_nil]
+  exact uc_res_two_blocks u _ _ _ hu hp (by rw [flatten_expand_length]; exact hl) (by rw [List.length_replicate]; exact h2.symm)
+
 
 end EpdVerif.Props.C01
